@@ -398,16 +398,19 @@ def label_common(ctx, case, M):
 
 # ---------------------------------------------------------------------------
 # tolerances
-def pos_tol(model, scale):
+def pos_tol(model, scale, noisy=False):
     """position tolerance in model coordinates: Poincare arcs are reproduced to ~1e-13;
     half-plane circles go through ideal points whose height carries sqrt(eps) ~ 1e-8
-    noise (observed <= 3e-7 (1+r))"""
-    return (1e-9 if model != "halfspace" else 2e-5) * scale
+    noise (observed <= 3e-7 (1+r)); noisy = the object itself has ideal vertices, whose
+    Poincare coordinates carry the same sqrt(eps) noise"""
+    if model == "halfspace":
+        return 2e-5 * scale
+    return (2e-6 if noisy else 1e-9) * scale
 
 
 # ---------------------------------------------------------------------------
 # law: polygon paths (Poincare, half-plane)
-def check_polygon_path(ctx, model, verts, path_vertices, path_codes, tag=""):
+def check_polygon_path(ctx, model, verts, path_vertices, path_codes, noisy=False):
     """verts: (n,2) expected model coordinates in order; the path must be n chunks"""
     n = len(verts)
     ctx.check(path_codes is not None, "polygon path has codes")
@@ -435,8 +438,8 @@ def check_polygon_path(ctx, model, verts, path_vertices, path_codes, tag=""):
         if ch["kind"] == "arc":
             ctx.label("arc-chunk")
             scale = 1.0 + r + float(np.max(np.abs(c)))
-            tol = pos_tol(model, scale)
-            fr = D.ArcFrame(c, r, p, q)
+            tol = pos_tol(model, scale, noisy)
+            fr = D.ArcFrame(c, r, p, q, upper=(model == "halfspace"))
             if fr.sweep < 0:
                 ctx.label("reversed-edge")
             ctx.small("arc chunk starts at vertex i", np.abs(pts[0] - p) / tol, 1.0,
@@ -461,7 +464,7 @@ def check_polygon_path(ctx, model, verts, path_vertices, path_codes, tag=""):
                       edge=i)
         else:
             ctx.label("line-chunk")
-            tol = pos_tol(model, vs)
+            tol = pos_tol(model, vs, noisy)
             if model == "poincare":
                 ctx.small("straight chunk is the chord from vertex i to vertex i+1",
                           np.abs(pts - np.array([p, q])) / tol, 1.0, edge=i, got=pts,
@@ -480,15 +483,10 @@ def check_polygon_path(ctx, model, verts, path_vertices, path_codes, tag=""):
                                             "<1e-1" if gap < 1e-1 else ">=1e-1"))
 
 
-def body_polygon(case, ctx):
-    model, n, shape = case["model"], case["n"], tuple(case["shape"])
-    P = np.array(case["verts"], dtype=float).reshape(shape + (n, 2))
-    M = D.run_program(case["prog"])
-    Q = D.to_model(D.act_klein(P, M), model).reshape((-1, n, 2))
-    poly = hyperbolic.Polygon(build_points(P, case))
-    ctx.check(poly.shape == shape, "polygon composite shape", got=poly.shape, want=shape)
-    label_common(ctx, case, M)
-    ctx.label("n=%d" % n, *["kind=" + k for k in case["kinds"]])
+def draw_and_check_polygons(case, ctx, model, poly, Q, noisy=False):
+    """draw `poly` under the case's figure / transform program and compare every patch with
+    the expected model vertices Q (count, n, 2)"""
+    n = Q.shape[1]
     with hyp_drawing(case, model, init_of(case["prog"])) as d:
         apply_program(d, case["prog"], hyperbolic.Isometry)
         d.draw_polygon(poly, **case["style"])
@@ -512,7 +510,79 @@ def body_polygon(case, ctx):
             ctx.label("skipped:short-edge")
             continue
         ctx.label("judged")
-        check_polygon_path(ctx, model, Q[k], V, C)
+        check_polygon_path(ctx, model, Q[k], V, C, noisy)
+
+
+def body_polygon(case, ctx):
+    model, n, shape = case["model"], case["n"], tuple(case["shape"])
+    P = np.array(case["verts"], dtype=float).reshape(shape + (n, 2))
+    M = D.run_program(case["prog"])
+    Q = D.to_model(D.act_klein(P, M), model).reshape((-1, n, 2))
+    poly = hyperbolic.Polygon(build_points(P, case))
+    ctx.check(poly.shape == shape, "polygon composite shape", got=poly.shape, want=shape)
+    label_common(ctx, case, M)
+    ctx.label("n=%d" % n, *["kind=" + k for k in case["kinds"]])
+    draw_and_check_polygons(case, ctx, model, poly, Q)
+
+
+@st.composite
+def ideal_polygon_case(draw, model):
+    """polygons with ideal vertices (ideal triangles etc.), given by projective rows; the
+    displayed ideal vertices keep angular distance >= IDEAL_GAP from the half-plane point
+    at infinity"""
+    n = draw(st.sampled_from([3, 3, 4, 5, 6]))
+    shape = draw(SHAPES)
+    count = gen.prod(shape)
+    prog = draw(program(iso_matrix()))
+    Minv = D.iso_inverse(D.run_program(prog))
+    rows, flags = [], []
+    for _ in range(count):
+        gaps = [draw(fl(0.25, 1.0)) for _ in range(n + 1)]
+        tot = sum(gaps)
+        acc, angs = 0.0, []
+        for g in gaps[:n]:
+            acc += g
+            angs.append(IDEAL_GAP + (2 * math.pi - 2 * IDEAL_GAP) * acc / tot)
+        if model != "halfspace":
+            off = draw(ANG)
+            angs = [a + off for a in angs]
+        if draw(st.booleans()):
+            fl_ = [True] * n
+        else:
+            fl_ = [draw(st.booleans()) for _ in range(n)]
+            fl_[draw(st.integers(0, n - 1))] = True
+        K = []
+        for a, ideal in zip(angs, fl_):
+            if ideal:
+                K.append(cis(a))
+            else:
+                K.append(H.poincare_to_klein(draw(fl(0.2, 0.9)) * cis(a)))
+        K = np.array(K)
+        if draw(st.booleans()):
+            K, fl_ = K[::-1], fl_[::-1]
+        X = np.concatenate([np.ones((n, 1)), K], axis=-1) @ Minv
+        X = X / X[:, :1] * np.array([[draw(gen.scalars_pm())] for _ in range(n)])
+        rows.append(X.tolist())
+        flags.append(list(fl_))
+    return dict(model=model, n=n, shape=shape, prog=prog, rows=rows, ideal=flags,
+                fig=draw(FIG), style=draw(STYLE), src="projective")
+
+
+def body_ideal_polygon(case, ctx):
+    model, n, shape = case["model"], case["n"], tuple(case["shape"])
+    X = np.array(case["rows"], dtype=float).reshape(shape + (n, 3))
+    ideal = np.array(case["ideal"], dtype=bool).reshape((-1, n))
+    M = D.run_program(case["prog"])
+    Y = (X @ M).reshape((-1, n, 3))
+    K = Y[..., 1:] / Y[..., :1]
+    U = K / np.linalg.norm(K, axis=-1, keepdims=True)
+    Q = np.where(ideal[..., None], D.ideal_to_model(U, model),
+                 D.to_model(np.where(ideal[..., None], 0.0, K), model))
+    poly = hyperbolic.Polygon(X.copy())
+    ctx.check(poly.shape == shape, "polygon composite shape", got=poly.shape, want=shape)
+    label_common(ctx, case, M)
+    ctx.label("n=%d" % n, "all-ideal" if ideal.all() else "some-ideal")
+    draw_and_check_polygons(case, ctx, model, poly, Q, noisy=True)
 
 
 def nt_polygon(labels):
@@ -1364,6 +1434,9 @@ LAWS = [
     Law("polygon_path_integer_coordinates",
         st.sampled_from(ARC_MODELS).flatmap(int_polygon_case),
         body_polygon, nt_polygon, quick=80, thorough=600, shards=(1, 2)),
+    Law("polygon_path_ideal_vertices",
+        st.sampled_from(ARC_MODELS).flatmap(ideal_polygon_case),
+        body_ideal_polygon, lambda l: "judged" in l, quick=100, thorough=800, shards=(1, 4)),
     Law("polygon_klein_collection",
         st.one_of(polygon_case("klein", kinds=["star", "star", "regular", "iid"]),
                   int_polygon_case("klein")),
